@@ -27,14 +27,15 @@ SCENARIOS = [
     ("custom,clear_checkpoint,checkpoint", "suspend", {}),
     ("custom,clear_checkpoint,checkpoint", "pause_defer", {}),
     ("custom,clear_checkpoint,checkpoint,pause", "", {}),
-    ("open_run,custom,clear_checkpoint,checkpoint", "pause", {}),
+    ("open_run,clear_checkpoint,checkpoint", "pause", {} if THOROUGH else {"max_requests": 2}),
     ("open_run,custom,clear_checkpoint", "suspend", {}),
     ("custom_async,clear_checkpoint", "pause", {}),
 ]
 if THOROUGH:
     SCENARIOS += [
         ("custom,clear_checkpoint,checkpoint", "pause,suspend", {"max_requests": 3}),
-        ("open_run,close_run,custom,clear_checkpoint,checkpoint", "pause", {}),
+        ("open_run,close_run,custom,clear_checkpoint,checkpoint", "pause", {"max_requests": 3}),
+        ("open_run,custom,clear_checkpoint,checkpoint", "pause", {}),
         ("custom_async,clear_checkpoint,checkpoint", "suspend", {}),
     ]
 
